@@ -23,6 +23,9 @@ pub struct Env {
     pub aslr_off: bool,
     #[serde(default)]
     pub cwd: Option<String>,
+    /// CPU affinity of the process (what `available_parallelism` reports): first cpu, count
+    #[serde(default)]
+    pub cpus: Option<(usize, usize)>,
 }
 
 impl Env {
@@ -34,6 +37,7 @@ impl Env {
             junk: vec![],
             aslr_off: true,
             cwd: None,
+            cpus: None,
         }
     }
 }
@@ -108,13 +112,17 @@ pub struct RefObs {
 }
 
 pub fn run_child(ctx: &Ctx, env: &Env, sched: &Schedule, durable: &Durable) -> Result<ChildOut, String> {
-    let mut cmd = if env.aslr_off {
-        let mut c = Command::new("setarch");
-        c.arg(std::env::consts::ARCH).arg("-R").arg(&ctx.exe);
-        c
-    } else {
-        Command::new(&ctx.exe)
-    };
+    let mut argv: Vec<String> = Vec::new();
+    let host_cpus = std::thread::available_parallelism().map(|x| x.get()).unwrap_or(1);
+    if let Some((first, n)) = env.cpus.filter(|(f, n)| f + n <= host_cpus) {
+        argv.extend(["taskset".to_string(), "-c".to_string(), format!("{}-{}", first, first + n - 1)]);
+    }
+    if env.aslr_off {
+        argv.extend(["setarch".to_string(), std::env::consts::ARCH.to_string(), "-R".to_string()]);
+    }
+    argv.push(ctx.exe.clone());
+    let mut cmd = Command::new(&argv[0]);
+    cmd.args(&argv[1..]);
     cmd.arg("session");
     cmd.env_clear();
     cmd.env("PATH", "/usr/bin:/bin");
@@ -303,6 +311,13 @@ fn gen_env(r: &mut Rng, discovered: &[String]) -> Env {
         aslr_off: true,
         // a sub-directory of the process's private directory
         cwd: if r.chance(1, 2) { Some(r.pick(&["w", "deep/er/still", "x y"]).to_string()) } else { None },
+        cpus: if r.chance(1, 3) {
+            let n = *r.pick(&[1usize, 2, 3, 8]);
+            // planned for a 16-cpu host; clamped to the real machine when the process is started
+            Some((r.below(16 - n + 1), n))
+        } else {
+            None
+        },
     }
 }
 
@@ -313,7 +328,7 @@ pub struct GenStats {
 pub fn gen_session(seed: u64, index: u64, c: &Corpus) -> Session {
     let mut r = Rng::new(seed, index);
     // swarm: sizes and mixes are redrawn per session
-    let len = *r.pick(&[8usize, 12, 20, 20, 30, 40, 60, 60, 100, 160, 250, 400]);
+    let len = *r.pick(&[8usize, 12, 20, 20, 30, 40, 60, 60, 100, 160, 250, 400, 20, 40, 60, 1200]);
     let workers = *r.pick(&[1usize, 1, 2, 2, 3, 4]);
     let n_family = r.range(1, 6);
     let n_base = r.range(3, 40);
@@ -777,6 +792,9 @@ pub fn minimise(ctx: &Ctx, refs: &RefCache, d: &Divergence, s: &Session, seed: u
     }
     let mut e = env_min.clone();
     e.cwd = None;
+    try_env(e, &mut env_min, &mut steps);
+    let mut e = env_min.clone();
+    e.cpus = None;
     try_env(e, &mut env_min, &mut steps);
     let mut e = env_min.clone();
     e.clock_base = None;
